@@ -53,6 +53,9 @@ class Inst:
         return ['ok' if ok else 'raised', exc, p['insw'], p['ordw'], text]     # first component always a string (comparable in TLC)
 
 
+FOREIGN = ('grace', 'chord', 'pitch', 'duration', 'tie', 'words', 'root', 'kind', 'text', 'syllabic', 'fifths', 'beats', 'score-part', 'staves')
+
+
 def battery(F):
     """fixed probes on fresh elements of every element-content type: acceptance of every child name, to_string verdict"""
     h = hashlib.sha1()
@@ -71,6 +74,22 @@ def battery(F):
                     rec = None
                 if rec is not None:
                     h.update(json.dumps([t, sym, len(ops), rec['res']['ok'], rec['res']['exc'], rec['post']['ordw'], rec['text']]).encode())
+        # shortcut names that are children of OTHER types: a fresh element refuses them whatever other elements did before
+        for sym in FOREIGN:
+            if sym in J['alphabet'][t]:
+                continue
+            try:
+                e = F.mk(R.elem, xsd_check=True, bare=True, lenient=True)
+                kid = F.mk(sym)
+            except Exception:  # noqa
+                continue
+            try:
+                with contextlib.redirect_stdout(io.StringIO()), contextlib.redirect_stderr(io.StringIO()):
+                    setattr(e, 'xml_' + sym.replace('-', '_'), kid)
+                out = 'accepted'
+            except Exception as ex:  # noqa
+                out = type(ex).__name__
+            h.update(json.dumps([t, 'xml_' + sym, out, [c.name for c in e.get_children(ordered=False)]]).encode())
     return h.hexdigest()[:16]
 
 
